@@ -119,7 +119,12 @@ func (l *Lexer) readLeadingComments() {
 				l.hadNewlineBefore = true
 				l.ReadChar()
 			}
-			l.leadingComments = append(l.leadingComments, strings.TrimRight(comment.String(), " "))
+			text := strings.TrimRight(comment.String(), " ")
+			if text == "" {
+				// "" stands for a blank line: keep an empty comment apart from it
+				text = " "
+			}
+			l.leadingComments = append(l.leadingComments, text)
 		}
 
 		if !isWhitespace(l.CurrentChar) {
